@@ -81,3 +81,9 @@ Theorem c16_run_without_data_noop natom fresh_bid st m os c :
   s_disp st = None \/ s_forces st = None -> run natom fresh_bid st m os c = (st, Ok tt).
 Proof. exact (run_without_data_noop natom fresh_bid st m os c). Qed.
 Print Assumptions c16_run_without_data_noop.
+
+(** The remaining source this property rests on is the recorded one (the Symfc facade): whole-function match,
+    regenerated on every run (closes the gap between "the expected statements are present" and "nothing else was added"). *)
+From SymfcG Require Import ShapesApi.
+Theorem c16_recorded_sources2_in_force : ShapesApi_as_recorded = true.
+Proof. repeat split; reflexivity. Qed.
